@@ -333,6 +333,11 @@ func (p *Program) Validate() error {
 			}
 		case "exit":
 			exited = true
+			if !g.FullWGs() {
+				// how the work-items of a partial group are packed into wavefronts is
+				// implementation-defined, and the exit condition is per wavefront
+				err = fmt.Errorf("early exit needs full work-groups")
+			}
 		default:
 			err = fmt.Errorf("unknown kind %q", o.Kind)
 		}
